@@ -311,6 +311,15 @@ class _Stubs:
             def __init__(self, fname, *a, **kw):
                 self.unmapped = case["unmapped"][bam_names.index(fname)] if fname in bam_names else 0
 
+            def __enter__(self):
+                return self
+
+            def __exit__(self, *a):
+                return False
+
+            def get_index_statistics(self):
+                return []               # no alignment on a sequence outside the reference (warn_about_skipped_sequences, fix b09aace)
+
             def close(self):
                 pass
 
